@@ -52,22 +52,31 @@ def rule_a(ctx):
     dec = hp.calls_to('Connection::decrypt_packet')
     ctx.floor('a', 'decrypt_sites', len(dec), 1)
     for s in sites:
-        # the packet / packet number handed to processing are the Ok payload of decrypt_packet (data dependence)
-        idx = 4 if s.is_('Connection::process_decrypted_packet') else 4
-        ad = arg_desc(F, s, idx)
-        okf = any(contains_site(ad, c) for c in dec) and not any(x[0] == 'param' for x in flat(ad))
-        ctx.check(okf, 'a', 'process_after_decrypt', hp, s.where(), 'argument derives from the Ok payload of decrypt_packet',
-                  '%s is handed a packet/number that does not come from decrypt_packet: %s' % (short(s.f), D.render(ad)[:200]))
-    okerr = False
-    for c in dec:
-        for br in branches(F, hp):
-            if br.desc[0] == 'discr' and br.desc[1][0] in ('call', 'phi') and contains_site(br.desc[1], c):
-                t_err = br.target(1)
-                okerr = True
-                for s in sites:
-                    if s.bb in hp.reachable_from(t_err):
-                        okerr = False
-    ctx.check(okerr, 'a', 'decrypt_error_edge_skips_processing', hp, hp.where(), 'Err edge of decrypt_packet reaches no processing site', 'a packet that failed decryption can reach processing')
+        # the packet / packet number handed to processing ARE the Ok payload of decrypt_packet: element 1 of the
+        # payload is the number decrypt_packet returned, element 0 the packet it decrypted in place
+        if s.is_('Connection::process_decrypted_packet'):
+            want = [(3, 1, 'number'), (4, 0, 'packet')]
+        else:
+            want = [(4, 1, 'packet_number'), (2, 'space', 'space_id')]
+        for idx, k, nm in want:
+            ad = arg_desc(F, s, idx)
+            if k == 'space':
+                okf = ad[0] == 'call' and ad[1] == 'Header::space' and len(ad[3]) == 1 and ad[3][0][0] == 'field' and ad[3][0][2] == 'header' \
+                    and _from_decrypt(F, ad[3][0][1], dec, 0)
+            else:
+                okf = _from_decrypt(F, ad, dec, k)
+            ctx.check(okf, 'a', 'process_after_decrypt', hp, s.where(), '`%s` is the Ok payload of decrypt_packet' % nm,
+                      '%s is handed a `%s` that is not the one decrypt_packet authenticated: %s' % (short(s.f), nm, D.render(ad)[:200]))
+    # every processing site is reachable only over the Ok edge of a test of a Result that is Ok only if decrypt_packet
+    # returned Ok (dominance by the edge; a verdict is never overwritten by another branch)
+    good = []
+    for br in branches(F, hp):
+        if br.desc[0] == 'discr' and br.desc[1][0] in ('call', 'phi') and any(contains_site(br.desc[1], c) and _ok_payloads(F, br.desc[1], c) for c in dec):
+            good.append(br)
+    unprot = [s for s in sites if not any(edge_dominates(hp, br.bb, br.target(0), s.bb) for br in good)]
+    ctx.check(bool(good) and bool(sites) and not unprot, 'a', 'decrypt_error_edge_skips_processing', hp, hp.where(),
+              'every processing site lies behind the Ok edge of a Result that is Ok only when decrypt_packet succeeded (%d test(s))' % len(good),
+              'a packet that failed decryption can reach processing: %s not dominated by the Ok edge of decrypt_packet' % [short(s.f) for s in unprot])
     dp = ctx.pfn('Connection::decrypt_packet')
     ctx.check(must_call(F, dp, ['packet_crypto::decrypt_packet_body'], 0), 'a', 'decrypt_packet_decrypts', dp, dp.where(), 'must-calls decrypt_packet_body', 'decrypt_packet no longer always decrypts')
     body = ctx.pfn('packet_crypto::decrypt_packet_body')
@@ -80,6 +89,97 @@ def rule_a(ctx):
         ctx.check(p is None, 'a', 'result_only_after_aead', body, o.where(), 'dominated by PacketKey::decrypt', 'a decrypted-packet result can be produced without the AEAD call')
     for c in decs:
         _err_edge_skips(ctx, 'a', 'aead_failure_yields_no_packet', body, c, [o.bb for o in oks])
+
+
+# --------------------------------------------------------------------------
+# Result provenance helpers (rule a)
+# --------------------------------------------------------------------------
+
+_ERR_PRESERVING_SAME_PAYLOAD = ('Result::map_err', 'Result::inspect', 'Result::inspect_err')
+
+
+def _is_call_site(d, c):
+    return d[0] == 'call' and len(d) > 4 and d[4] == c.bb and short(c.f) == d[1]
+
+
+def _is_ok_of(x, c):
+    """x IS `(<result of call site c> as Ok).0`"""
+    return x[0] == 'field' and x[2] == '0' and x[1][0] == 'variant' and x[1][2] == 'Ok' and _is_call_site(x[1][1], c)
+
+
+def _closure_body(F, d):
+    if d[0] == 'agg' and d[1] == 'closure':
+        cbs = [b for b in F.bodies.values() if b.canon == d[2] and b.kind == 'closure']
+        if len(cbs) == 1:
+            return cbs[0]
+    return None
+
+
+def _subst(d, f):
+    r = f(d)
+    if r is not None:
+        return r
+    return tuple(_subst(x, f) if isinstance(x, tuple) else x for x in d)
+
+
+def _ok_payloads(F, R, c):
+    """R describes a Result.  Returns the descriptors of its Ok payload (one per alternative that can be Ok) provided
+    every alternative is Ok ONLY when call site c returned Ok: c's Result itself, Err-preserving combinators over it,
+    or an `Ok(..)` literal whose payload is / directly holds `(c as Ok).0` (readable only past c's Ok edge).
+    None as soon as one alternative can be Ok otherwise; [] when no alternative can be Ok at all."""
+    outs = []
+    for alt in flat(R):
+        p = _ok_payload1(F, alt, c)
+        if p is None:
+            return None
+        outs.extend(p)
+    return outs
+
+
+def _ok_payload1(F, alt, c):
+    if alt[0] == 'agg' and alt[1] == 'adt' and alt[2].endswith('Result::Err'):
+        return []
+    if alt[0] == 'agg' and alt[1] == 'adt' and alt[2].endswith('Result::Ok') and len(alt[3]) == 1:
+        pay = alt[3][0]
+        if _is_ok_of(pay, c) or (pay[0] == 'agg' and pay[1] == 'tuple' and any(_is_ok_of(e, c) for e in pay[3])):
+            return [pay]
+        return None
+    if _is_call_site(alt, c):
+        return [('field', ('variant', alt, 'Ok'), '0')]
+    if alt[0] == 'call' and alt[3]:
+        if alt[1] in _ERR_PRESERVING_SAME_PAYLOAD:
+            return _ok_payloads(F, alt[3][0], c)
+        if alt[1] in ('Result::map', 'Result::and_then'):
+            inner = _ok_payloads(F, alt[3][0], c)
+            if inner is None:
+                return None
+            cb = _closure_body(F, alt[3][1]) if len(alt[3]) == 2 and alt[1] == 'Result::map' else None
+            if cb is None:
+                return [('field', ('variant', alt, 'Ok'), '0')] if inner else []   # Err-preserving, payload opaque
+            captured = alt[3][1][3]
+            outs = []
+            for ip in inner:
+                for _, rd in ret_descs(F, cb):
+                    outs.append(_subst(rd, lambda x: ip if x[0] == 'param' and x[1] == 2 else
+                                       (captured[0] if x[0] == 'upvar' and len(captured) == 1 else None)))
+            return outs
+    return None
+
+
+def _from_decrypt(F, ad, dec, k):
+    """ad IS element k of the Ok payload `(packet, number)` of a Result that is Ok only when a decrypt_packet site
+    returned Ok; element 1 is exactly the number that site returned, element 0 exactly the packet it was given."""
+    if not (ad[0] == 'field' and ad[2] == str(k) and ad[1][0] == 'field' and ad[1][2] == '0' and ad[1][1][0] == 'variant' and ad[1][1][2] == 'Ok'):
+        return False
+    R = ad[1][1][1]
+    for c in dec:
+        pays = _ok_payloads(F, R, c)
+        if not pays:
+            continue
+        given = arg_desc(F, c, 2)
+        if all(p[0] == 'agg' and p[1] == 'tuple' and len(p[3]) == 2 and (_is_ok_of(p[3][1], c) if k == 1 else p[3][0] == given) for p in pays):
+            return True
+    return False
 
 
 def _err_edge_skips(ctx, rule, instance, body, call, sites):
@@ -107,12 +207,14 @@ def rule_b(ctx):
         p = must_precede(F, ac, s.bb, ['PacketKey::decrypt'], depth=0)
         ctx.check(p is None, 'b', 'first_packet_decrypted_before_handling', ac, s.where(), 'dominated by PacketKey::decrypt', 'handle_first_packet reachable without decrypting the Initial')
     for c in decs:
-        ok = False
+        ok, found = True, False
         for br in branches(F, ac):
             inner, neg = peel_not(br.desc)
-            if inner[0] == 'call' and inner[1] == 'Result::is_err' and contains_site(inner, c):
+            if inner[0] == 'call' and inner[1] == 'Result::is_err' and inner[3] and is_site(inner[3][0], c):
+                found = True
                 t_err = br.target(0 if neg else 1)
-                ok = all(s.bb not in ac.reachable_from(t_err) for s in hs) and all(x.bb not in ac.reachable_from(t_err) for x in ac.calls_to('Endpoint::add_connection'))
+                ok = ok and all(s.bb not in ac.reachable_from(t_err) for s in hs) and all(x.bb not in ac.reachable_from(t_err) for x in ac.calls_to('Endpoint::add_connection'))
+        ok = ok and found
         ctx.check(ok, 'b', 'authentication_failure_creates_no_connection', ac, c.where(), 'is_err edge reaches neither add_connection nor handle_first_packet', 'an Initial that fails authentication can still create/drive a connection')
     hf = ctx.pfn('Endpoint::handle_first_packet')
     nc = [c for c in constructions(F, 'DatagramEvent', 'NewConnection', crate='quinn_proto')]
@@ -214,12 +316,14 @@ def rule_d(ctx):
     guard_protects(ctx, 'd', 'retry_only_before_other_server_packets', pdp, lambda o, a, b: o == 'Lt' and D.has_const(a, 1) and D.has_field(b, 'total_authed_packets'), prot, what='total_authed_packets > 1', need_dom=False)
     guard_protects(ctx, 'd', 'retry_needs_token', pdp, lambda o, a, b: o == 'Le' and D.has_const(b, 16) and 'len' in D.render(a), prot, what='payload.len() <= 16', need_dom=False)
     for c in valid:
-        ok = False
+        ok, found = True, False
         for br in branches(F, pdp):
             inner, neg = peel_not(br.desc)
-            if inner[0] == 'call' and contains_site(inner, c):
+            if is_site(inner, c):
+                found = True
                 t_bad = br.target(1 if neg else 0)
-                ok = all(p not in pdp.reachable_from(t_bad, avoid=[br.bb]) for p in prot) and all(pdp.dominates(br.bb, p) for p in prot)
+                ok = ok and all(p not in pdp.reachable_from(t_bad, avoid=[br.bb]) for p in prot) and all(pdp.dominates(br.bb, p) for p in prot)
+        ok = ok and found
         ctx.check(ok, 'd', 'retry_needs_valid_integrity_tag', pdp, c.where(), 'is_valid_retry false edge reaches no Retry state change', 'Retry state changes are reachable without a valid integrity tag')
     srv = [br for br in branches(F, pdp) if br.desc[0] == 'call' and br.desc[1] == 'ConnectionSide::is_server']
     ok = any(all(p not in pdp.reachable_from(br.target(1), avoid=[br.bb]) for p in prot) and all(pdp.dominates(br.bb, p) for p in prot) for br in srv)
@@ -239,6 +343,72 @@ def rule_d(ctx):
     ctx.check(ok, 'd', 'every_authenticated_packet_counts_itself', opa, opa.where(), 'total_authed_packets += 1 on every path (before the `packet?` early return)',
               'on_packet_authenticated no longer counts unnumbered packets (VN/Retry): the `total_authed_packets > 1` gates then open one packet late')
     who_may_write(ctx, 'd', 'total_authed_packets_writers', 'Connection', 'total_authed_packets', ['Connection::on_packet_authenticated', 'Connection::new'], floor=1)
+
+
+def _is_mut_conn_ty(ty):
+    return isinstance(ty, str) and ty.startswith('&mut ') and ty[5:].endswith('connection::Connection')
+
+
+def _passes_mut_conn(body, c):
+    return any(a[0] in ('c', 'm') and not a[1][1] and _is_mut_conn_ty(body.local_ty(a[1][0])) for a in c.args)
+
+
+def _conn_place_field(place):
+    fs = [e[1] for e in place[1] if isinstance(e, list) and e[0] == 'f' and e[2].endswith('connection::Connection')]
+    return fs[0] if fs else None
+
+
+_DW = {}
+
+
+def _direct_conn_writes(F, fn):
+    """(Connection fields stored to / mutably borrowed / receiving a call result in fn and its closures,
+        workspace callees fn forwards a `&mut Connection` to, markers for unknown callees receiving one)"""
+    k = (id(F), fn.id)
+    if k in _DW:
+        return _DW[k]
+    fields, fwd, unknown = set(), [], set()
+    for b in F.family(fn) if fn.kind == 'fn' else [fn]:
+        live = b.live_blocks()
+        for i, j, s in b.stmts():
+            if i not in live or s[0] not in ('=', 'sd'):
+                continue
+            f = _conn_place_field(s[1])
+            if f:
+                fields.add(f)
+            if s[0] == '=' and ((s[2][0] == 'ref' and s[2][1]) or (s[2][0] == 'ptr' and 'Mut' in str(s[2][1]))):
+                f = _conn_place_field(s[2][2])
+                if f:
+                    fields.add(f)
+        for c in b.calls():
+            if c.bb not in live or is_noise(c):
+                continue
+            f = _conn_place_field(c.dst) if c.dst else None
+            if f:
+                fields.add(f)
+            if _passes_mut_conn(b, c):
+                if c.k in ('item', 'closurecall') and c.f in F.bodies:
+                    fwd.append(F.bodies[c.f])
+                else:
+                    unknown.add('<unknown callee %s>' % short(c.f or c.df or '?'))
+    _DW[k] = (fields, fwd, unknown)
+    return _DW[k]
+
+
+def _conn_fields_written_by(F, call):
+    """Connection fields the callee of `call` (handed `&mut Connection`) may write, transitively"""
+    if not (call.k in ('item', 'closurecall') and call.f in F.bodies):
+        return {'<unknown callee %s>' % short(call.f or call.df or '?')}
+    out, seen, stack = set(), set(), [F.bodies[call.f]]
+    while stack:
+        fn = stack.pop()
+        if fn.id in seen:
+            continue
+        seen.add(fn.id)
+        fields, fwd, unknown = _direct_conn_writes(F, fn)
+        out |= fields | unknown
+        stack.extend(fwd)
+    return out
 
 
 def rule_e(ctx):
@@ -266,6 +436,12 @@ def rule_e(ctx):
                 f2 = [e[1] for e in rv[2][1] if isinstance(e, list) and e[0] == 'f' and e[2].endswith('connection::Connection')]
                 if f2 and f2[0] not in ('authentication_failures', 'stats'):
                     bad.append((f2[0] + '(&mut)', s[3]))
+        # state changes made through a callee that is handed `&mut Connection`: its transitive field writes count too
+        for c in hp.calls():
+            if c.bb not in region or is_noise(c) or not _passes_mut_conn(hp, c):
+                continue
+            for f in sorted(_conn_fields_written_by(F, c) - {'authentication_failures', 'stats'}):
+                bad.append(('%s (via %s)' % (f, short(c.f)), c.line))
         ctx.check(not bad, 'e', 'failed_authentication_touches_only_counters', hp, w.where(), 'writes on the silent-drop path limited to authentication_failures/stats (%d blocks)' % len(region),
                   'the failed-authentication path writes connection state: %s' % bad[:4])
 
@@ -277,13 +453,19 @@ def rule_f(ctx):
     guard_error(ctx, 'f', 'key_update_needs_higher_packet_number', b, lambda o, a, c: o == 'Le' and D.has_field(c, 'rx_packet') and (D.has_call(a, 'PacketNumber::expand') or 'number' in D.render(a)),
                 code='KEY_UPDATE_ERROR', protect=oks, what='number <= rx_packet',
                 offsets=[('Add', '1')])   # `number` is expand(rx_packet + 1, ..): the +1 is inside the packet-number expansion
-    es = bool_edges(ctx, b, lambda d: d[0] == 'call' and d[1] == 'Option::is_some_and' and D.has_param(d, name='prev_crypto'))
-    ok = False
-    for br, truth, tgt in es:
-        if truth:
-            eff = err_code_calls(ctx, b, 'KEY_UPDATE_ERROR')
-            ok = path_avoiding(b, [tgt], set(b.return_blocks()) | set(oks), eff) is None
-    ctx.check(ok, 'f', 'key_update_refused_while_previous_unacked', b, b.where(), 'update_unacked -> KEY_UPDATE_ERROR', 'a second remote key update is accepted while the previous one is unacknowledged')
+    # the test "a previous key update is still unacknowledged": prev_crypto.is_some_and(|x| x.update_unacked) (the closure
+    # body is resolved: it must return exactly the field, polarity tracked) or a direct test of (prev_crypto as Some).0.update_unacked
+    eff = err_code_calls(ctx, b, 'KEY_UPDATE_ERROR')
+    ok, found = True, False
+    for br in branches(F, b):
+        inner, neg = peel_not(br.desc)
+        pol = _unacked_test(F, inner)
+        if pol is None:
+            continue
+        found = True
+        tgt = br.target(1 if (pol != neg) else 0)    # edge taken when update_unacked is set
+        ok = ok and bool(eff) and path_avoiding(b, [tgt], set(b.return_blocks()) | set(oks), eff) is None
+    ctx.check(ok and found, 'f', 'key_update_refused_while_previous_unacked', b, b.where(), 'update_unacked -> KEY_UPDATE_ERROR', 'a second remote key update is accepted while the previous one is unacknowledged')
     # both checks only matter under crypto_update; the KEY_UPDATE_ERROR sites are dominated by the crypto_update test
     cu = [br for br in branches(F, b, stop_named=True) if peel_not(br.desc)[0][0] == 'local' and peel_not(br.desc)[0][2] == 'crypto_update']
     ctx.check(bool(cu), 'f', 'key_update_validation_present', b, b.where(), 'if crypto_update {..}', 'the incoming key update validation block is gone')
@@ -300,21 +482,47 @@ def rule_f(ctx):
     ctx.check(ok, 'f', 'reserved_bits_rejected', b, b.where(), 'invalid reserved bits never yield a packet', 'packets with reserved bits set are accepted')
 
 
+def _unacked_test(F, d):
+    """d (negations peeled) tests `prev_crypto is Some(x) and x.update_unacked`: returns True when d is true exactly if the
+    flag is set, False when d is its negation inside the closure (`|x| !x.update_unacked` is NOT the stated test: reported
+    as polarity False so the edge check runs on the edge where the flag IS set), None when d is not such a test."""
+    if d[0] == 'field' and d[2] == 'update_unacked' and D.has_param(d[1], name='prev_crypto'):
+        return True
+    if d[0] == 'call' and d[1] in ('Option::is_some_and', 'Option::map_or') and D.has_param(d[3][0], name='prev_crypto'):
+        if d[1] == 'Option::map_or' and not (d[3][1][0] == 'const' and str(d[3][1][2]) in ('false', '0')):
+            return None
+        cb = _closure_body(F, d[3][-1])
+        if cb is None:
+            return None
+        pols = set()
+        for _, rd in ret_descs(F, cb):
+            inner, neg = peel_not(rd)
+            if not (inner[0] == 'field' and inner[2] == 'update_unacked' and inner[1][0] == 'param'):
+                return None
+            pols.add(not neg)
+        return pols.pop() if len(pols) == 1 else None
+    return None
+
+
 def rule_g(ctx):
     F = ctx.facts
     hp = ctx.pfn('Connection::handle_packet')
     sites = hp.calls_to('Connection::process_decrypted_packet')
     brs = [br for br in branches(F, hp) if D.has_field(br.desc, 'expected_token')]
-    ok = False
+    ok, found = True, False
     for br in brs:
         rel = relation_on(br.desc, True)
         if rel and rel[0] in ('Ne', 'Eq'):
+            found = True
             t_mis = br.true_target() if rel[0] == 'Ne' else br.false_target()
-            ok = all(s.bb not in hp.reachable_from(t_mis) for s in sites)
-    ctx.check(ok and bool(brs), 'g', 'initial_with_other_token_discarded', hp, hp.where(), 'token != expected_token edge reaches no processing', 'an Initial carrying a different token than the first one is processed by the server')
+            ok = ok and all(s.bb not in hp.reachable_from(t_mis) for s in sites)
+    ctx.floor('g', 'processing_sites', len(sites), 1)
+    ctx.check(ok and found, 'g', 'initial_with_other_token_discarded', hp, hp.where(), 'token != expected_token edge reaches no processing', 'an Initial carrying a different token than the first one is processed by the server')
 
 
 def run(ctx):
+    from rules.shared_rules import no_fatal_error_before_authentication
+    no_fatal_error_before_authentication(ctx, 'a', 'no_fatal_error_before_authentication')
     from rules.shared_rules import every_processed_packet_is_counted
     every_processed_packet_is_counted(ctx, 'd', 'every_processed_packet_is_counted')
     rule_a(ctx)
